@@ -85,6 +85,7 @@ func csRange(v uint64) string {
 func checkWriters(v uint64, tail []byte) {
 	want := refCS(v)
 	doc := map[string]interface{}{"op": "direct:CompactSize", "v": strconv.FormatUint(v, 10)}
+	beat("WriteVlen / PutULe / VLenSize / VULe / ReadVLen directly", doc)
 	rg := csRange(v)
 	model := o.MustAsk(fmt.Sprintf("putule %d", v))
 	if model != vlib.Hex(want) {
